@@ -47,6 +47,12 @@ FRAGMENT_HISTORY = [
                                "array parameter": 85, "array result": 85, "vec parameter": 77, "vec result": 73,
                                "func parameter": 54, "function name as value": 39, "node:go": 33,
                                "closure env with func field": 25, "same let re-declared in two match clauses": 22}},
+    {"stage": "+ fixed-size arrays (literal, array_get / array_set with the out-of-range panic, array parameters / results)",
+     "inside": 5087, "functions": 6160,
+     "first_reasons_outside": {"callee outside": 282, "node:to-dyn": 176, "call:vec_new": 127, "vec parameter": 78,
+                               "vec result": 75, "func parameter": 55, "same let re-declared in two match clauses": 44,
+                               "function name as value": 40, "node:go": 39, "closure env with func field": 25,
+                               "call:string_len": 19, "float literal": 10}},
 ]
 
 
